@@ -117,6 +117,21 @@ func isWrite(e *Event) bool { return e.Kind == EvWriteInt || e.Kind == EvWriteBy
 
 func (a *Analysis) decodeBufferUse(rep *Report, rule, key string, paths []*Path) (n int) {
 	for _, p := range paths {
+		walkWithConds(p, func(e *Event, conds []Cond, _ []*Event) {
+			if e.Kind != EvReadBytes || e.Mode != "Next" {
+				return
+			}
+			ok := false
+			for _, c := range conds {
+				if availabilityGuard(c, e.Size) {
+					ok = true
+				}
+			}
+			if z, isC := e.Size.Int64(); isC && z == 0 {
+				ok = true
+			}
+			rep.Ob(rule, key+":Next@"+siteKey(e), ok, a.P.Pos(e.Pos), "buf.Next("+e.Size.Pretty()+") takes however many bytes are left (up to that many) and no dominating check establishes that exactly that many are available")
+		})
 		walkEvents(p.Events, func(e *Event, _ int) {
 			if e.Buf == nil && e.Kind != EvObj {
 				return
@@ -129,6 +144,9 @@ func (a *Analysis) decodeBufferUse(rep *Report, rule, key string, paths []*Path)
 				rep.Ob(rule, key+":READ_INT:"+typeStr(e.IntType), ok, epos, "number read without a fixed size")
 			case EvReadBytes:
 				n++
+				if e.Mode == "Next" {
+					return // judged above, with the conditions in force
+				}
 				rep.Ob(rule, key+":READ_BYTES:"+e.Mode, e.Mode == "ReadFull" || e.Mode == "Read", epos, "bytes consumed through "+e.Mode)
 			case EvLen, EvBytes:
 				n++
@@ -316,7 +334,7 @@ func (a *Analysis) errorDiscipline(rep *Report, key string, fn *ssa.Function, pa
 		// E2b: (*Buffer).Next hands back fewer bytes than asked for without any error: it must be dominated by an exact
 		// availability check of the same length
 		walkWithConds(p, func(x *Event, conds []Cond, _ []*Event) {
-			if x.Kind != EvBufOther || x.Mode != "Next" || len(x.Args) != 1 {
+			if x.Kind != EvReadBytes || x.Mode != "Next" || len(x.Args) != 1 {
 				return
 			}
 			ok := false
@@ -343,7 +361,10 @@ func (a *Analysis) errorDiscipline(rep *Report, key string, fn *ssa.Function, pa
 			exact := !aff.Top && aff.C == 0 && len(aff.Term) == 1
 			if exact {
 				for k, c := range aff.Term {
-					exact = c == 1 && aff.Sym[k].Op == "wire"
+					sym := aff.Sym[k]
+					// the count as read, or as assembled by hand from exactly the bytes read
+					byHand := sym.Op == "call" && strings.HasPrefix(sym.Name, "(encoding/binary.") && strings.Contains(sym.Name, "Endian).Uint") && len(sym.Args) == 1 && stripCT(sym.Args[0]).Op == "wire"
+					exact = c == 1 && (sym.Op == "wire" || byHand)
 				}
 			}
 			rep.Ob("E3-exact-count", key+":loop@"+siteKey(x), exact, a.P.Pos(x.Pos),
@@ -578,7 +599,7 @@ func aliasIn(v *Val) *Val {
 		return nil
 	}
 	switch v.Op {
-	case "bufbytes", "bufnext":
+	case "bufbytes", "bufnext", "availbuf":
 		return v
 	case "conv":
 		if v.Name == "convert" && isStringOrBytes(v.Type) {
